@@ -43,6 +43,10 @@ def h_session(ctx, n=3, leverage=10, mode='isolated', exch='futures', side='long
             ctx.constrain(sl < 99.9 if long else sl > 100.1)
         T = S.make_template(side=side, entry=None, stop=sl, take=None, qty=1.0, on_open_exits=on_open,
                             exit_qty_from_position=on_open, name='T1m')
+    elif kind == 'T3p':  # partial take-profit: a fill in the same minute leaves the position open
+        tp = ctx.real('tp', 20, 400)
+        ctx.constrain(tp > 100.1 if long else tp < 99.9)
+        T = S.make_template(side=side, entry=None, stop=None, take=[(1.0, tp)], qty=2.0, name='T3p')
     else:  # T2: averaged entry (market + resting second point)
         p2 = ctx.real('p2', 20, 400)
         T = S.make_template(side=side, entry=[(1.0, 100.0), (1.0, p2)], stop=None, qty=2.0, name='T2', cancel_entry=False)
@@ -55,7 +59,8 @@ def check_liquidations(ctx, rec, leverage, mode, exch):
     for pre in rec.liq:
         post = pre['post']
         forced = post['total_liq'] != pre['total_liq']
-        cnd = pre['candle']
+        mc = pre.get('minute_candle')
+        cnd = mc if mc is not None else pre['candle']
         if exch == 'spot' or mode != 'isolated' or not pre['is_open']:
             ctx.prove(not forced and post['n_orders'] == pre['n_orders'], 'C09:no-forced-close-when-not-isolated-or-not-open',
                       {'mode': mode, 'open': pre['is_open']})
@@ -108,6 +113,7 @@ def _jobs(tier):
         add(n=3, leverage=10, mode='cross', exch='futures', side='long', stop=False)
         add(n=3, leverage=1, mode='isolated', exch='spot', side='long', stop=False)
         add(n=3, leverage=5, mode='isolated', exch='futures', side='long', stop=False, kind='T2')
+        add(n=3, leverage=10, mode='isolated', exch='futures', side='long', stop=False, kind='T3p')
     else:
         for L in (2, 3, 5, 10, 20, 50, 100, 125):
             for side in ('long', 'short'):
@@ -121,6 +127,8 @@ def _jobs(tier):
         for L in (2, 5, 20):
             add(n=3, leverage=L, mode='isolated', exch='futures', side='long', stop=False, kind='T2')
             add(n=3, leverage=L, mode='isolated', exch='futures', side='short', stop=False, kind='T2')
+            add(n=3, leverage=L, mode='isolated', exch='futures', side='long', stop=False, kind='T3p')
+            add(n=3, leverage=L, mode='isolated', exch='futures', side='short', stop=False, kind='T3p')
         add(n=4, leverage=10, mode='isolated', exch='futures', side='long', stop=True)
         add(n=6, leverage=10, mode='isolated', exch='futures', side='long', stop=False, fast=True, tf='3m', sym_from=4)
         add(n=6, leverage=10, mode='isolated', exch='futures', side='short', stop=True, fast=True, tf='3m', sym_from=4)
